@@ -144,7 +144,7 @@ def check(run: Run) -> None:
     run.rule("O2", "divergence equals (h1 h2 h3)^-1 sum_i d_i(F_i h_j h_k)")
     run.rule("O3", "curl components equal s (h_j h_k)^-1 (d_j(h_k F_k) - d_k(h_j F_j))")
     run.rule("O4", "curl(grad f) = 0 and div(curl F) = 0 for the repository's formulas composed")
-    run.rule("O5", "divergence and curl pad the component list with zeros to length three before indexing")
+    run.rule("O5", "divergence and curl accept fields with fewer than three components (missing components count as zero)")
     mod = run.src.need(MOD)
     fns = {s.name: s for s in mod.tree.body if isinstance(s, ast.FunctionDef)}
     for name in ("gradient_operator", "divergence_operator", "curl_operator"):
@@ -234,28 +234,14 @@ def check(run: Run) -> None:
     r4 = apply_operator(tree, "curl_operator", "CARTESIAN", [var(f"c{k}") for k in range(4)])
     if not isinstance(r4, Raised):
         run.violate("O3", f"{MOD}:curl_operator:4-components", mod, curl, "curl of a 4-component field is answered instead of refused")
-    # O5 padding
-    w = World(run.src)
+    # O5 padding, decided by evaluation: fields with fewer than three components go through divergence and curl without an IndexError
+    # (that their values are those of the zero-padded field is O2/O3 above)
     for name in ("divergence_operator", "curl_operator"):
-        f_ = Fn(w, MOD, name)
-        run.ob("O5", name)
-        ok = False
-        for n in f_.cfg.stmt_nodes():
-            a = n.ast
-            if isinstance(a, ast.Assign) and len(a.targets) == 1 and isinstance(a.targets[0], ast.Name) and a.targets[0].id == "field_components" and not n.lexical_tests:
-                v = a.value
-                if isinstance(v, ast.BinOp) and isinstance(v.op, ast.Add) and isinstance(v.right, ast.BinOp) and isinstance(v.right.op, ast.Mult):
-                    zeros, count = v.right.left, v.right.right
-                    if isinstance(count, ast.List):
-                        zeros, count = count, v.right.left
-                    z_ok = isinstance(zeros, ast.List) and len(zeros.elts) == 1 and (dotted(zeros.elts[0]) == "S.Zero" or (isinstance(zeros.elts[0], ast.Constant) and zeros.elts[0].value == 0))
-                    c_ok = isinstance(count, ast.BinOp) and isinstance(count.op, ast.Sub) and isinstance(count.left, ast.Constant) and count.left.value == 3 \
-                        and isinstance(count.right, ast.Call) and dotted(count.right.func) == "len" and (dotted(count.right.args[0]) or "").endswith(".components")
-                    l_ok = isinstance(v.left, ast.Call) and dotted(v.left.func) == "list" and (dotted(v.left.args[0]) or "").endswith(".components")
-                    if z_ok and c_ok and l_ok:
-                        # every subscript use of field_components is dominated by this definition
-                        uses = [u for u in f_.cfg.stmt_nodes() if u is not n and any(isinstance(x, ast.Name) and x.id == "field_components" for x in ast.walk(u.ast) if not isinstance(u.ast, (ast.If, ast.For, ast.While)))]
-                        if all(f_.cfg.dominated_by(u, lambda y: y is n) for u in uses):
-                            ok = True
-        if not ok:
-            run.violate("O5", f"{MOD}:{name}:padding", f_.mod, f_.fn, f"{name} does not extend the component list with zeros to length 3 before indexing it")
+        for system in SYSTEMS:
+            for ncomp in range(3):
+                run.ob("O5", f"{name}/{system}/{ncomp}")
+                res = apply_operator(tree, name, system, [var(f"c{k}") for k in range(ncomp)])
+                if isinstance(res, Raised):
+                    run.violate("O5", f"{MOD}:{name}:padding", mod, fns[name],
+                                f"{name} raises {res.exc} for a {ncomp}-component field in {system.lower()} coordinates: the component list is not extended with zeros to "
+                                f"length three before it is indexed")
